@@ -285,13 +285,19 @@ fn durable_order(req: &Value) -> Value {
     let val = |i: i64| { let mut d = TensorData::new(); d.set("v", TensorValue::Scalar(ScalarValue::Int(i))); d };
     let read = |s: &TensorStore| s.get(key).ok().and_then(|t| match t.get("v") { Some(TensorValue::Scalar(ScalarValue::Int(i))) => Some(*i), _ => None });
     let store = match TensorStore::open_durable(&path, WalConfig::default()) { Ok(s) => s, Err(e) => return json!({"error": e.to_string()}) };
-    let _ = store.put_durable(key, val(0));
+    if !req["fresh_key"].as_bool().unwrap_or(false) {
+        let _ = store.put_durable(key, val(0));
+    }
     let slot: Arc<Mutex<Option<std::thread::JoinHandle<bool>>>> = Arc::new(Mutex::new(None));
     let main_thread = std::thread::current().id();
     let fired = Arc::new(std::sync::atomic::AtomicBool::new(false));
     let (s2, slot2, fired2, key2) = (store.clone(), slot.clone(), fired.clone(), key.to_string());
-    *tensor_store::slab_router::VERIF_DURABLE_WINDOW.write().unwrap() = Some(Arc::new(move |_k: &str| {
-        if std::thread::current().id() != main_thread || fired2.swap(true, std::sync::atomic::Ordering::SeqCst) {
+    // window: "after_append" (between this write's log append and its apply) or "before_lock" (just before it takes the log lock)
+    let before_lock = req["window"].as_str() == Some("before_lock");
+    let with_embedding = req["embedding"].as_bool().unwrap_or(false);
+    *tensor_store::slab_router::VERIF_DURABLE_WINDOW.write().unwrap() = Some(Arc::new(move |k: &str| {
+        let wanted = if before_lock { k == "before log lock" } else { k == key2 };
+        if std::thread::current().id() != main_thread || !wanted || fired2.swap(true, std::sync::atomic::Ordering::SeqCst) {
             return;
         }
         let (tx, rx) = mpsc::channel();
@@ -299,6 +305,9 @@ fn durable_order(req: &Value) -> Value {
         let h = std::thread::spawn(move || {
             let mut d = TensorData::new();
             d.set("v", TensorValue::Scalar(ScalarValue::Int(2)));
+            if with_embedding {
+                d.set("_embedding", TensorValue::Vector(vec![1.0, 2.0]));
+            }
             let r = s3.put_durable(k3, d).is_ok();
             let _ = tx.send(());
             r
@@ -310,12 +319,15 @@ fn durable_order(req: &Value) -> Value {
     *tensor_store::slab_router::VERIF_DURABLE_WINDOW.write().unwrap() = None;
     let second_ok = slot.lock().unwrap().take().map(|h| h.join().unwrap_or(false));
     let in_memory = read(&store);
+    let in_memory_exists = store.exists(key);
     drop(store);
     let rec = TensorStore::recover(&path, &WalConfig::default(), None);
     let recovered = rec.as_ref().ok().and_then(|s| read(s));
+    let recovered_exists = rec.as_ref().map(|s| s.exists(key)).unwrap_or(false);
     let _ = std::fs::remove_dir_all(&dir);
     json!({"first_ok": first_ok, "second_ok": second_ok, "readers_last_saw": in_memory, "recovered_after_restart": recovered, "recover_error": rec.err().map(|e| e.to_string()),
-           "violates": first_ok && second_ok == Some(true) && in_memory != recovered})
+           "exists_in_memory": in_memory_exists, "exists_after_restart": recovered_exists,
+           "violates": second_ok == Some(true) && (in_memory != recovered || in_memory_exists != recovered_exists) && (first_ok || before_lock)})
 }
 
 /// C11 D2: a durable write is started right after the checkpoint saved its snapshot (schedule hook); after a restart from
